@@ -507,12 +507,10 @@ def finish_converge(ctx, job):
             fps = converge_fingerprints(c, v)
             small, small_v = c, v
             known = [fp for fp in fps if any(k.get("status") == "known" and k.get("fingerprint") == fp for k in ctx.known)]
-            vtoks = v.split()[2].split(",") if len(v.split()) > 2 else []
-            # the harness attaches `stale-store-ahead` only when every stale resource belongs to a service object DELETED under
-            # the hold window whose own parked ConfigUpdate call named its key (relabelStoreAhead); anything else under a hold
-            # window is an ordinary violation
-            if len(known) != len(fps) and vtoks and all(t.endswith(":stale-store-ahead") for t in vtoks) \
-                    and any(l.split()[0] == "hold" for l in c[1:]):
+            # store ahead of event delivery (any object kind): the failing history contains a hold window and the very same
+            # history WITHOUT the hold / release markers converges, twice. Anything that still fails without the markers
+            # stays an ordinary violation. (The harness' `stale-store-ahead` kind and the parked keys are information only.)
+            if len(known) != len(fps) and any(l.split()[0] == "hold" for l in c[1:]):
                 # whether the push of the earlier events runs INSIDE the hold window is a race (that is the nature of the
                 # finding), so the failure need not show again on a re-run; what must hold is that the same history without the
                 # markers converges - twice
